@@ -194,7 +194,7 @@ def parse_asm(text):
 
 
 def build_and_compare(ctx, pairs):
-    cmd = ['cargo', 'rustc', '--release', '--offline', '--lib', '--', '--emit=asm']
+    cmd = ['cargo', 'rustc', '--release', '--offline', '--lib', '--target-dir', os.path.join(HARNESS, 'target', 'asm'), '--', '--emit=asm']
     rc, out = sh(cmd, cwd=ASM, timeout=3600)
     if rc != 0:
         errs = [l for l in out.splitlines() if l.startswith('error')]
